@@ -146,6 +146,9 @@ ADMISSION_SCENARIOS = [
     # arrivals whose acknowledgement handshake stalls until the connect timeout cancels it: they are never established, so they must not count
     dict(limit=1, connect_timeout_ms=400, steps=[dict(dir='in_stalled'), dict(dir='in_stalled'), dict(dir='in'), dict(dir='in')]),
     dict(limit=2, connect_timeout_ms=400, steps=[dict(dir='in'), dict(dir='in_stalled'), dict(dir='in'), dict(dir='in')]),
+    # arrivals while the node's own dials hang and fill its cap on connections being established: admission does not depend on them
+    dict(limit=None, connect_timeout_ms=6000, outstanding_cap=1, hanging_explicit_dials=1, steps=[dict(dir='in', affinity='allowed'), dict(dir='in'), dict(dir='in', affinity='never'), dict(dir='in', affinity='high')]),
+    dict(limit=1, connect_timeout_ms=6000, outstanding_cap=1, hanging_background_dial=True, steps=[dict(dir='in', affinity='high'), dict(dir='in'), dict(dir='in', affinity='allowed')]),
     # every affinity BELOW the limit, then at it
     dict(limit=3, steps=[dict(dir='in', affinity='never'), dict(dir='in'), dict(dir='in', affinity='never'), dict(dir='in', affinity='high'), dict(dir='in'), dict(dir='in'), dict(dir='in', affinity='never'), dict(dir='in', affinity='allowed')]),
 ]
@@ -387,6 +390,25 @@ def panicking_handler(env):
         raise Undecided('panicking_handler scenario reported %d views' % len(views))
     return dict(name='panicking_handler', validates='what the connection manager and the per-connection handler do when a request task panics (their select! loops are outside every contract), on three real nodes', cases=len(views), failed=fails, ok=not fails,
                 props=['C09'], clause='after connectivity has been fault-free for longer than the idle timeout, A lists B iff B lists A, and every listed peer can be reached by RPC')
+
+
+def busy_node_still_dials(env):
+    """C13 timing on real networks, with a wide margin: check interval 300 ms; a quiet node and a node whose connection manager handles an unrelated
+    connect / disconnect about 20 times a second; a reachable High-affinity peer must be dialed, and redialed after it drops the connection, within 3 s
+    (ten intervals) in both"""
+    got = _run('busy_node_still_dials', {}, env, timeout=120)
+    fails = []
+    if got.get('panicked'):
+        fails.append(dict(scenario='busy_node_still_dials', args={}, expected=dict(note='the scenario finishes'), observed=got))
+    runs = got.get('runs') or []
+    for r in runs:
+        slow = [k for k in ('dialed_after_ms', 'redialed_after_ms') if r.get(k) is None or r[k] > 3000]
+        if slow:
+            fails.append(dict(scenario='busy_node_still_dials', args=dict(busy=r['busy'], interval_ms=300), expected=dict(within_ms=3000, of=slow), observed=r))
+    if not fails and len(runs) != 2:
+        raise Undecided('busy_node_still_dials scenario reported %d runs' % len(runs))
+    return dict(name='busy_node_still_dials', validates='the timer of the connection manager\'s event loop (a select! loop outside every contract) under unrelated traffic, on real nodes; wide margin (10 intervals)', cases=2 * len(runs), failed=fails, ok=not fails,
+                props=['C13'], clause='a reachable High-affinity peer is dialed within one check interval plus jitter of becoming known, and redialed after the connection is lost, whatever else the node is doing')
 
 
 def decode_sweep(env):
@@ -750,7 +772,8 @@ def routing_table(env):
 
 def auth_scenarios(env):
     """C20 on the real layer: every allow-list over 2 peers x sender (absent / listed / unlisted) x direction marker (none / inbound / outbound),
-    and an application-defined authorizer whose refusal is a full response (status, headers, body)"""
+    an application-defined authorizer whose refusal is a full response (status, headers, body); allow-lists of 0..=24 peers in four orders x every listed
+    sender, two unlisted ones and none (1500 calls); and a busy wrapped service (capacity 1) behind three clones of the layered service"""
     p, q, r = [1] * 32, [2] * 32, [3] * 32
     fails, cases = [], 0
     for allowed in ([], [p], [p, q]):
@@ -779,6 +802,18 @@ def auth_scenarios(env):
             ok = got.get('status') == 429 and got.get('inner_calls') == 0 and got.get('body') == exp['body'] and got.get('headers') == exp['headers']
         if not ok:
             fails.append(dict(scenario='auth', args=args, expected=exp, observed=got))
+    sweep = _run('auth_sweep', {}, env)
+    cases += int(sweep.get('cases') or 0) + 3
+    if sweep.get('panicked'):
+        fails.append(dict(scenario='auth_sweep', args={}, expected=dict(note='no panic'), observed=sweep))
+    for b in sweep.get('bad') or []:
+        fails.append(dict(scenario='auth_sweep', args=dict(allow_list_size=b['allow_list_size'], order=b['order'], sender_listed=b['sender_listed'], sender_position=b['sender_position']), expected=b['expected'], observed=b['observed']))
+    busy = sweep.get('busy_wrapped_service') or {}
+    if not sweep.get('panicked') and (busy.get('statuses') != [200, 200, 404] or busy.get('wrapped_service_invocations') != 2):
+        fails.append(dict(scenario='auth_sweep', args=dict(wrapped_service='capacity 1, first request held', requests=['listed', 'listed', 'unlisted'], each_through_its_own_clone=True),
+                          expected=dict(statuses=[200, 200, 404], wrapped_service_invocations=2, note='an accepted request reaches the wrapped service exactly once however busy it is'), observed=busy))
+    if not fails and sweep.get('cases') != 1500:
+        raise Undecided('auth_sweep scenario reported %s cases' % sweep.get('cases'))
     return dict(name='auth_scenarios', validates='the authorization layer of anemo-tower as built by RequireAuthorizationLayer on the real crate: the allow-list decision whatever other metadata the request carries, and that a refusal is EXACTLY the authorizer\'s response',
                 cases=cases, failed=fails, ok=not fails, props=['C20'],
                 clause='the wrapped service is invoked iff the authorizer accepted; the allow-list accepts exactly the listed authenticated senders (NotFound for others, InternalServerError without identity); a refused request receives exactly the authorizer\'s response')
